@@ -20,7 +20,7 @@ RULE = ("Generated: histories = setup(l in 1..7, signatures on/off, random strea
         "by guard slots that must stay untouched. Oracle: the slot-pattern model + the scheme's pairing equations evaluated with the "
         "library's group operations and pairing (decided by C01/C05/C06): free-slot list == model, e(a0,g) == pairing*e(g3*prod h_i^v_i, "
         "a1), e(b_i,g) == e(h_i,a1), e(bsig,g) == e(hsig,a1), fresh ciphertext for the key's pattern decrypts with the key and the master "
-        "key, delegable steps are pure functions of (inputs, stream). Non-trivial = the history contains a hidden slot below a later "
+        "key, delegable steps are pure functions of (inputs, stream); every randomised output is fixed exactly by the exponent the step draws first from the caller's random source (a1 == [parent a1 *] g^t for keygen/qualifykey/resamplekey, g1 == g^alpha and msk == g2^alpha for setup, B == g^s and C == (g3*prod h^v)^s for the control encryption; the exponent is obtained by running the library's sampler, decided by C07/C10, on the same stream). Non-trivial = the history contains a hidden slot below a later "
         "fixed or free slot, or a qualification of a key that already has fixed slots, or an adjust step, or a value >= r.")
 ASSUMPTIONS = ["library group operations, scalar multiplication and pairing are as decided by C01/C05/C06", "attribute lists are sorted, duplicate-free, indices < l; hidden entries carry id 0 (what the Go wrapper produces)",
                "sign/keygen are given non-null attribute lists"]
